@@ -40,6 +40,15 @@ theorem roundTripTree_stable (bs : Bytes) (enc : Bytes) (dc : List Nat) (g : Nat
     (h : roundTripTree bs = .ok enc dc) : rtBox g bs = .ok enc dc :=
   TreeRT.roundTripTree_stable bs enc dc g hg h
 
+/-- **fixed point through nesting** (C01's second sentence): when nothing was dropped at the top (the output has the
+    input's length) and no `moov` reordering happens on the way, decoding the re-encoded tree again succeeds and
+    re-encoding it gives exactly the same bytes -/
+theorem fixed_point (f : Nat) (bs : Bytes) (hb : IsBytes bs) (enc : Bytes) (dc : List Nat)
+    (hsz : bs.length < 2 ^ 32) (h8 : beVal (bs.take 4) ≠ 1) (hm : moovFree f bs = true)
+    (h : rtBox f bs = .ok enc dc) (hlen : enc.length = bs.length) :
+    ∃ dc', rtBox f enc = .ok enc dc' :=
+  TreeRT.fixed_point f bs hb enc dc hsz h8 hm h hlen
+
 /-- non-vacuity: a concrete nested tree (traf [tfhd, tfdt]) is accepted and reproduced -/
 example : (match roundTripTree ([0,0,0,0x2c] ++ [0x74,0x72,0x61,0x66] ++
       ([0,0,0,0x10] ++ [0x74,0x66,0x68,0x64] ++ [0,0,0,0, 0,0,0,1]) ++
